@@ -106,9 +106,14 @@ class SimWorld(object):
                 except Exception:  # pylint: disable=broad-except
                     ok = False
                 if ok:
-                    t = sim.spawn(lambda s_=sock, c_=caddr: ae.process_request_thread(s_, c_),
-                                  name='acc%d' % len(self.acceptor_tasks), role='acceptor')
-                    self.acceptor_tasks.append(t)
+                    # (ThreadingMixIn.process_request, or whatever the entity makes of it: the
+                    # thread it starts per connection is a simulator task, see seams)
+                    n0 = len(self.w.acceptor_started)
+                    try:
+                        ae.process_request(sock, caddr)
+                    except Exception:  # pylint: disable=broad-except
+                        self.handler_errors.append(traceback.format_exc())
+                    self.acceptor_tasks.extend(self.w.acceptor_started[n0:])
                 else:
                     try:
                         ae.shutdown_request(sock)
